@@ -349,8 +349,38 @@ where
     }
 }
 
+/// Copy of the library's `EmptyLimitStream` / `EmptyCountStream`.
+struct NoLimit;
+impl Stream for NoLimit {
+    type Item = usize;
+    fn poll_next(self: Pin<&mut Self>, _cx: &mut Context<'_>) -> Poll<Option<usize>> {
+        Poll::Ready(None)
+    }
+}
+
 /// Build any stage on an erased (values, stream) pair.
-fn build_on_pair<E: El, I: Item<E>>(values: Vector<E>, s: BoxS<I>, kind: StageKind, stage: usize, obs_init: u8, log: &Log<E>, via_adapter: bool) -> (Built<E, I>, LimCtl) {
+fn build_on_pair<E: El, I: Item<E>>(values: Vector<E>, s: BoxS<I>, kind: StageKind, stage: usize, obs_init: u8, log: &Log<E>, via_adapter: bool, static_value: bool) -> (Built<E, I>, LimCtl) {
+    if static_value {
+        // A statically limited Head/Tail/Skip kept as a value: `tail(n)` is
+        // `dynamic_tail_with_initial_value(n, EmptyLimitStream)` (traits.rs), the
+        // library's `EmptyLimitStream` cannot be constructed outside the crate
+        // (`non_exhaustive`), `NoLimit` below is a copy of it: always `Ready(None)`.
+        match kind {
+            StageKind::Head(Lim::Static(n)) => {
+                let (v, h) = (values, s).dynamic_head_with_initial_value(n as usize, Box::pin(NoLimit) as LimS);
+                return (Built::Dyn(DynAd::Head(h), Some(v)), LimCtl::None);
+            }
+            StageKind::Tail(Lim::Static(n)) => {
+                let (v, h) = (values, s).dynamic_tail_with_initial_value(n as usize, Box::pin(NoLimit) as LimS);
+                return (Built::Dyn(DynAd::Tail(h), Some(v)), LimCtl::None);
+            }
+            StageKind::Skip(Lim::Static(n)) => {
+                let (v, h) = (values, s).dynamic_skip_with_initial_count(n as usize, Box::pin(NoLimit) as LimS);
+                return (Built::Dyn(DynAd::Skip(h), Some(v)), LimCtl::None);
+            }
+            _ => {}
+        }
+    }
     if via_adapter {
         // keep the dynamic-with-initial-value adapter as a value so that the
         // next stage is built on "the adapter itself" (into_parts with a
@@ -400,7 +430,7 @@ fn build_on_pair<E: El, I: Item<E>>(values: Vector<E>, s: BoxS<I>, kind: StageKi
 fn build_on_adapter<E: El, I: Item<E>>(ad: DynAd<E, I>, kind: StageKind, stage: usize, obs_init: u8, log: &Log<E>) -> (Built<E, I>, LimCtl) {
     if matches!(kind.lim(), Some(Lim::Dyn(_))) {
         let (v, s) = ad.into_pair();
-        return build_on_pair(v, s, kind, stage, obs_init, log, false);
+        return build_on_pair(v, s, kind, stage, obs_init, log, false, false);
     }
     let (v, s, ctl) = match ad {
         DynAd::Head(h) => build_fixed::<E, I, _>(h, kind, stage, obs_init, log),
